@@ -2,8 +2,9 @@
 """file_seed.py <prop> <mK> <caught_by> <needs...>: copy a verified sub-agent change to /verif/seeded/<prop>-<mK>/ with meta.json"""
 import json, os, shutil, sys
 prop, m, caught = sys.argv[1], sys.argv[2], sys.argv[3]
-src = "/tmp/mut/%s_out/%s" % (prop, m)
-dst = "/verif/seeded/%s-%s" % (prop, m)
+import os as _os
+src = "%s/%s_out/%s" % (_os.environ.get("MUTBASE", "/tmp/mut"), prop, m)
+dst = "/verif/seeded/%s-%s%s" % (prop, _os.environ.get("SEEDTAG", ""), m)
 os.makedirs(dst, exist_ok=True)
 for f in ("patch.diff", "demo.py", "notes.md"):
     shutil.copy(os.path.join(src, f), os.path.join(dst, f))
@@ -11,7 +12,7 @@ log = open(os.path.join(src, "verify.log")).read().strip().split("\n") if os.pat
 notes = open(os.path.join(src, "notes.md")).read()
 meta = {
     "property": prop,
-    "id": "%s-%s" % (prop, m),
+    "id": "%s-%s%s" % (prop, _os.environ.get("SEEDTAG", ""), m),
     "origin": "independent sub-agent given only the property text and a scratch worktree",
     "needs_to_manifest": " ".join(sys.argv[4:]) or "see notes.md",
     "verified_by_me": {"what_i_ran": "tools/verify_seed.sh %s %s (scratch worktree of /repo HEAD: demo without patch, git apply, demo with patch, "
